@@ -15,9 +15,9 @@ import (
 
 func init() {
 	register(&Check{ID: "C17", Run: runC17, Expl: oblig.Explanation{
-		Text: "Static truncation-handling check. (R1) every error that ReadResponse/ReadRequest/Unmarshal return from the decoder state passes through dontExpectEOF (an EOF inside a frame is never reported as a clean EOF), and the Batch maps EOFs that are not the end-of-batch marker the same way. (R2) the decoder's error is sticky: setError keeps the first error and drains, every read helper returns its zero value once the error is set, array loops stop when nothing remains. (R3) the connection is not used again: C11.R2 (Conn closed on non-Kafka errors), C11.R4 (no reader-layer error dropped), C06.R6 (transport conn dropped after a failed exchange) are re-evaluated here. (R4) RoundTrip never returns a message together with an error; (R5) size threading of the hand-written reader: every reader-layer function returns a remaining size derived from its size argument on its error exits (a cut inside a varint or field is never reported as 'nothing left'); (R6) the deadline that bounded the request also bounds the wait for its response. Not decided: never panics at every cut position (value-level; C20 covers length-driven panics), Reader/Writer resumption without loss (fault sequences), deadlines actually firing (timing).",
-		Rule: "one obligation per error exit / helper / call site; non-trivial = a path or provenance query was evaluated",
-		Trusted: []string{"go/ssa", "rules shared with C11 and C06"},
+		Text:        "Static truncation-handling check. (R1) every error that ReadResponse/ReadRequest/Unmarshal return from the decoder state passes through dontExpectEOF (an EOF inside a frame is never reported as a clean EOF), and the Batch maps EOFs that are not the end-of-batch marker the same way. (R2) the decoder's error is sticky: setError keeps the first error and drains, every read helper returns its zero value once the error is set, array loops stop when nothing remains. (R3) the connection is not used again: C11.R2 (Conn closed on non-Kafka errors), C11.R4 (no reader-layer error dropped), C06.R6 (transport conn dropped after a failed exchange) are re-evaluated here. (R4) RoundTrip never returns a message together with an error; (R5) size threading of the hand-written reader: every reader-layer function returns a remaining size derived from its size argument on its error exits (a cut inside a varint or field is never reported as 'nothing left'); (R6) the deadline that bounded the request also bounds the wait for its response. Not decided: never panics at every cut position (value-level; C20 covers length-driven panics), Reader/Writer resumption without loss (fault sequences), deadlines actually firing (timing).",
+		Rule:        "one obligation per error exit / helper / call site; non-trivial = a path or provenance query was evaluated",
+		Trusted:     []string{"go/ssa", "rules shared with C11 and C06"},
 		Assumptions: []string{"io.ErrUnexpectedEOF is what callers (Writer retry, Reader reconnect) treat as a transient network error"},
 	}})
 }
@@ -92,8 +92,8 @@ func c17DontExpectEOF(p *load.Program, r *oblig.Report) {
 						if iff == nil {
 							continue
 						}
-						if c2, ok := iff.Cond.(*ssa.Call); ok {
-							if f := c2.Call.StaticCallee(); f != nil && f.Name() == "Is" && strings.Contains(argDesc(c2.Call.Args[1]), "ErrUnexpectedEOF") && (d.Succs[0] == child || d.Succs[0].Dominates(child)) {
+						if c2, ok := an.CondOf(iff).(*ssa.Call); ok {
+							if f := c2.Call.StaticCallee(); f != nil && an.RefFuncName(f) == "Is" && strings.Contains(argDesc(c2.Call.Args[1]), "ErrUnexpectedEOF") && (d.Succs[0] == child || d.Succs[0].Dominates(child)) {
 								okGuard = true
 							}
 						}
@@ -192,7 +192,7 @@ func c17Sticky(p *load.Program, r *oblig.Report) {
 		}
 		q := an.PathQuery{Fn: se, Target: func(i ssa.Instruction) bool {
 			c2, ok := i.(*ssa.Call)
-			return ok && c2.Call.StaticCallee() != nil && c2.Call.StaticCallee().Name() == "discardAll"
+			return ok && c2.Call.StaticCallee() != nil && an.RefFuncName(c2.Call.StaticCallee()) == "discardAll"
 		}}
 		okDrain = q.ReachableFrom(an.PointOf(st)) != nil
 	})
@@ -216,7 +216,7 @@ func c17Sticky(p *load.Program, r *oblig.Report) {
 		iff, _ := an.IfCond(fn.Blocks[0])
 		ok := false
 		if iff != nil {
-			if c2, isC := iff.Cond.(*ssa.Call); isC && c2.Call.StaticCallee() != nil && c2.Call.StaticCallee().Name() == "readFull" {
+			if c2, isC := an.CondOf(iff).(*ssa.Call); isC && c2.Call.StaticCallee() != nil && an.RefFuncName(c2.Call.StaticCallee()) == "readFull" {
 				// false edge returns a zero constant
 				fb := fn.Blocks[0].Succs[1]
 				if ret, isR := fb.Instrs[len(fb.Instrs)-1].(*ssa.Return); isR && len(ret.Results) == 1 {
@@ -237,7 +237,7 @@ func c17Sticky(p *load.Program, r *oblig.Report) {
 			continue
 		}
 		ok := false
-		for _, b := range fn.Blocks {
+		for _, b := range an.Blocks(fn) {
 			_, ci := an.IfCond(b)
 			if ci != nil && ci.Op == token.GTR && strings.HasSuffix(argDesc(ci.X), ".remain") {
 				if k, isK := an.ConstInt(ci.Y); isK && k == 0 {
@@ -293,8 +293,12 @@ func c17RoundTrip(p *load.Program, r *oblig.Report) {
 	run := p.Func("", "(*conn).run")
 	if run != nil {
 		ok := false
-		an.EachInstr(run, func(ins ssa.Instruction) {
-			if call, isC := ins.(*ssa.Call); isC && call.Call.StaticCallee() != nil && call.Call.StaticCallee().Name() == "reject" {
+		F, _ := exchangeFunction(p, run)
+		if F == nil {
+			F = run
+		}
+		an.EachInstr(F, func(ins ssa.Instruction) {
+			if call, isC := ins.(*ssa.Call); isC && call.Call.StaticCallee() != nil && an.RefFuncName(call.Call.StaticCallee()) == "reject" {
 				for _, pred := range call.Block().Preds {
 					_, ci := an.IfCond(pred)
 					if ci != nil && ci.Op == token.NEQ && an.IsNilConst(ci.Y) && pred.Succs[0] == call.Block() {
@@ -390,7 +394,7 @@ func c17Deadline(p *load.Program, r *oblig.Report) {
 		if !ok || call.Call.StaticCallee() == nil {
 			return
 		}
-		switch call.Call.StaticCallee().Name() {
+		switch an.RefFuncName(call.Call.StaticCallee()) {
 		case "doRequest", "waitResponse":
 			n++
 			if call.Call.Args[1] != ssa.Value(dParam) {
